@@ -42,7 +42,12 @@ def check(ctx):
                     and "format" in mac and "\\n" in rv[1][2].replace("\n", "\\n"):
                 tpl = (rv[1][2], cl, line)
     if tpl is None:
-        raise AnchorMissing("line-comment template not found in generate_build_information")
+        if _split_line_comment_template(ctx, facts, g):
+            tpl = "split"
+        else:
+            raise AnchorMissing("line-comment template not found in generate_build_information")
+    if tpl == "split":
+        return _rest(ctx, facts)
     parts = rxmod.decode_fmt_template(tpl[0])
     if [p[0] for p in parts] != ["arg", "lit"]:
         raise AnchorMissing("line-comment template has an unexpected shape: %s" % parts)
@@ -62,6 +67,51 @@ def check(ctx):
                   % (parts[1][1].replace("\n", "\\n").replace("\r", "\\r"), rxdfa.render([s for s in (wit or []) if s != START])),
                   where(tpl[1], tpl[2]))
 
+    _rest(ctx, facts)
+
+
+def _split_line_comment_template(ctx, facts, g):
+    """R15.1, second form (added after seed C15-b): the per-delimiter template carries no line end and a second template adds
+    it to the joined alternatives.  The assembled pattern for two delimiters must denote the union of the two single-delimiter
+    languages: `a.*|b.*(end)?` attaches the line end to the last alternative only (alternation binds weakest)."""
+    def templates(body):
+        out = []
+        for bi, si, p, rv, line, mac in body.assigns():
+            if rv[0] == "use" and rv[1][0] == "k" and rv[1][1].startswith("&[u8;") and isinstance(rv[1][2], str) and "format" in mac:
+                try:
+                    out.append((rxmod.decode_fmt_template(rv[1][2]), body, line))
+                except Exception:
+                    pass
+        return out
+    item = [t for cl in facts.closures_of(g) for t in templates(cl) if [x[0] for x in t[0]] == ["arg", "lit"] and ("\n" not in t[0][1][1] and "\\n" not in t[0][1][1])
+            and t[0][1][1].startswith(".")]
+    outer = [t for t in templates(g) if [x[0] for x in t[0]] in (["arg", "lit"], ["lit", "arg", "lit"]) and ("\n" in t[0][-1][1] or "\\n" in t[0][-1][1])]
+    joins = [c for c in g.calls() if (c.path or "").split("::")[-1] == "join"]
+    if len(item) != 1 or len(outer) != 1 or not joins:
+        return False
+    lit1 = item[0][0][1][1]
+    pre = outer[0][0][0][1] if outer[0][0][0][0] == "lit" else ""
+    suf = outer[0][0][-1][1]
+    A, B = START, "\u00b6"
+    pattern = pre + A + lit1 + "|" + B + lit1 + suf
+    spec = A + ".*(\r\n|\r|\n)?|" + B + ".*(\r\n|\r|\n)?"
+    try:
+        alpha = sorted(rxdfa.literals(rxdfa.parse(pattern)) | {"\n", "\r", A, B}) + [rxdfa.OTHER]
+        eq, wit = rxdfa.equivalent(rxdfa.regex_dfa(pattern, alpha), rxdfa.regex_dfa(spec, alpha), alpha)
+    except rxdfa.Unsupported as e:
+        ctx.bad("R15.1", "line-comment|template-unsupported", "cannot analyse the assembled line-comment pattern %r: %s" % (pattern, e),
+                where(outer[0][1], outer[0][2]))
+        return True
+    show = lambda x: x.replace("\n", "\\n").replace("\r", "\\r").replace(A, "<start1>").replace(B, "<start2>")
+    ctx.check(eq, "R15.1", "line-comment|runs-to-end-of-line-including-break",
+              "the assembled pattern %s denotes the union of the single-delimiter languages" % show(pattern),
+              "the line-comment pattern is assembled as %s: the line end belongs to the last alternative only (alternation binds "
+              "weakest), a comment in another style ends before its line break; a distinguishing text is %s"
+              % (show(pattern), show(rxdfa.render(wit or []))), where(outer[0][1], outer[0][2]))
+    return True
+
+
+def _rest(ctx, facts):
     # ---------------------------------------------------------------- R15.2 / R15.3
     f = facts.body(FBC)
     consts = [s for s, l in str_consts(f)]
